@@ -227,3 +227,13 @@ Definition compare_handlers (functions : list (string * list site)) (f : string)
   | None => None
   | Some sites => option_map handlers (find (fun s => String.eqb (callee s) "checker.check_object_store") sites)
   end.
+
+(* what a comparing function does to the report when the data checker refuses (an exception caught by the handlers
+   around check_object_store): the handler sets the current step to FAILED and logs the error; if it does not end
+   the function there, add_log_records_from_data_checker() follows and derives the status anew from the checks
+   collected so far ([failed] of them failed) *)
+Definition refusal_flow (returns : bool) (failed passed : nat) (m : manager) : manager :=
+  let m1 := fst (mstep (fst (mstep m (SetStatus FAILED))) AddLog) in
+  if returns then m1 else fst (mstep m1 (FromChecker failed passed)).
+Definition last_status (m : manager) : option status :=
+  match rev m with [] => None | s :: _ => Some (s_status s) end.
